@@ -14,6 +14,10 @@ def prepare(slice_):
         BATCH.update(json.load(f))
     for i, p in enumerate(BATCH["programs"]):
         CODE[i] = compile(p["src"], p["name"], "exec")
+        by = {}
+        for r in p.get("cfg", []):
+            by.setdefault(r["method_id"], set()).add((r["src_stmt_id"], r["dst_stmt_id"]))
+        p["_cfg"] = {m: frozenset(e) for m, e in by.items()}       # built natively, outside tracing
 
 
 def run_cpython(i, args):
@@ -32,7 +36,7 @@ def run_cpython(i, args):
 
 def run_gir(i, args, hooks=None):
     p = BATCH["programs"][i]
-    it = Interp({"m": p["rows"]}, hooks=hooks)
+    it = Interp({"m": p["rows"]}, hooks=hooks, fuel=2500)
     try:
         ret = it.call_entry("m", "f", args)
         return it.outs, ret, None
@@ -136,3 +140,128 @@ def replay(func, cex):
                 "what": f"program {p['name']} f({a}, {b}, {bool(c)}): {why}\n{p['src']}",
                 "fingerprint": f"equiv:{p['name']}:{p.get('hash') or __import__('hashlib').sha256(p['src'].encode()).hexdigest()[:10]}"}
     raise ValueError(func)
+
+
+# ---- C04: every execution is a path in the CFG -------------------------------------------------------------------
+def cfg_of(i):
+    p = BATCH["programs"][i]
+    if "_cfg" not in p:
+        by = {}
+        for r in p.get("cfg", []):
+            by.setdefault(r["method_id"], set()).add((r["src_stmt_id"], r["dst_stmt_id"]))
+        p["_cfg"] = by
+    return p["_cfg"]
+
+
+def trace_gir(i, args):
+    """{activation id: (method id, [stmt ids], finished)} in execution order."""
+    acts = {}
+    order = []
+
+    def on_stmt(act, row):
+        if act.id not in acts:
+            acts[act.id] = [act.method_id, [], False]
+            order.append(act.id)
+        acts[act.id][1].append(row["stmt_id"])
+
+    def on_exit(act, sig):
+        if act.id in acts:
+            acts[act.id][2] = True
+    outs, ret, err = run_gir(i, args, hooks={"on_stmt": on_stmt, "on_exit": on_exit})
+    return [acts[k] for k in order], err
+
+
+def cfg_violation(i, args):
+    cfg = cfg_of(i)
+    traces, err = trace_gir(i, args)
+    for method_id, stmts, finished in traces:
+        if method_id in (0, -2):
+            continue
+        edges = cfg.get(method_id)
+        if edges is None:
+            return f"method {method_id} executes {stmts[:6]} but has no control-flow graph"
+        first = stmts[0]
+        if any(d == first for (s, d) in edges):
+            return f"method {method_id}: the first executed statement {first} is not an entry node (it has predecessors)"
+        if not any(s == first for (s, d) in edges) and len(stmts) > 1:
+            return f"method {method_id}: the first executed statement {first} is not in the graph"
+        for x, y in zip(stmts, stmts[1:]):
+            if (x, y) not in edges:
+                return f"method {method_id}: statement {y} executes right after {x} but the graph has no edge {x}->{y}"
+        if finished and (stmts[-1], -1) not in edges:
+            return f"method {method_id}: execution leaves the method after statement {stmts[-1]} but there is no edge to the exit"
+    return None
+
+
+def check_cfg(pidx: int, a: int, b: int, c: bool) -> bool:
+    """
+    pre: _pre(pidx, a, b)
+    post: _
+    """
+    why = cfg_violation(pidx, (a, b, c))
+    if why:
+        return fail("cfg", prog=BATCH["programs"][pidx]["name"], pidx=pidx, args=[a, b, c], why=why)
+    return True
+
+
+def check_cfg_reach(pidx: int, a: int, b: int, c: bool) -> bool:
+    """
+    pre: _pre(pidx, a, b)
+    post: _
+    """
+    traces, err = trace_gir(pidx, (a, b, c))
+    return not (len(traces) >= 1 and len(traces[-1][1]) >= 3)
+
+
+def cfg_static(i):
+    """Native: no node of a method's graph belongs to another method; every executed-able statement of the method that
+    some explored path reached is a node (checked dynamically)."""
+    p = BATCH["programs"][i]
+    from vlib.gir_interp import Unit
+    u = Unit(p["rows"])
+    owner = {}
+
+    def walk(block, m):
+        for r in u.children.get(block, []):
+            owner[r["stmt_id"]] = m
+            for k, v in r.items():
+                if k in ("body", "then_body", "else_body", "parameters", "init_body", "update_body", "condition_prebody",
+                         "catch_body", "final_body") and isinstance(v, int):
+                    walk(v, r["stmt_id"] if r["operation"] == "method_decl" else m)
+            if r["operation"] == "class_decl":
+                for k in ("methods", "fields"):
+                    if isinstance(r.get(k), int):
+                        walk(r[k], m)
+    for r in u.top:
+        if r["operation"] == "method_decl":
+            owner[r["stmt_id"]] = r["stmt_id"]
+            for k in ("parameters", "body"):
+                if isinstance(r.get(k), int):
+                    walk(r[k], r["stmt_id"])
+        elif r["operation"] == "class_decl":
+            for k in ("methods", "fields"):
+                if isinstance(r.get(k), int):
+                    walk(r[k], 0)
+    bad = []
+    for m, edges in cfg_of(i).items():
+        for (s, d) in edges:
+            for x in (s, d):
+                if x > 0 and x in owner and owner[x] != m and x != m:
+                    bad.append(f"statement {x} of method {owner[x]} is a node of the graph of method {m}")
+    return bad[:3]
+
+
+_replay_equiv = replay
+
+
+def replay(func, cex):   # noqa: F811
+    if func.startswith("check_cfg"):
+        prepare({"batch": SLICE["batch"]}) if not BATCH["programs"] else None
+        i = cex["pidx"]
+        a, b, c = cex["args"]
+        p = BATCH["programs"][i]
+        why = cfg_violation(i, (a, b, bool(c)))
+        kind = (why or "").split(":")[-1].strip().split(" ")[0:3]
+        return {"violated": bool(why), "observed": why, "what": f"program {p['name']} f({a}, {b}, {bool(c)}): {why}\n{p['src']}",
+                "fingerprint": f"cfg:{p['name']}:{p.get('hash') or __import__('hashlib').sha256(p['src'].encode()).hexdigest()[:10]}"}
+    return _replay_equiv(func, cex)
